@@ -51,7 +51,9 @@ def mstepLine (x : MSt) (line : String) : MSt × List String :=
         pure { filter := f, domain := d, extra := x, tgtAttr := ta, op := o, agg := a, aggKey := k, srcAttr := sa }
       | _ => none
     match i.toNat?, e.toInt?, (if ms == "-" then some [] else (ms.splitOn ";").mapM parseM) with
-    | some i, some e, some ms => (mdo x (.buffset i e ms), [])
+    | some i, some e, some ms =>
+      -- the model ignores payload that is not a buff modifier of this universe; the real service never builds such
+      if ms.all (bspecOK x.st.u) then (mdo x (.buffset i e ms), []) else (x, ["bad-op ill-formed buff payload"])
     | _, _, _ => bad
   | ["MC", i, a] => match i.toNat?, a.toInt? with | some i, some a => (mdo x (.changed i a), []) | _, _ => bad
   | ["MR", i, a] => match i.toNat?, a.toInt? with
